@@ -27,11 +27,11 @@ class ZDomainSequence(ZDomain, Sequence):
         vals = self.vals
         N = len(vals)
         for ni in range(N):
-            result = vals[ni] * z**ni
+            result = vals[ni] * z**self.n[ni]
             result = result.change(result, domain='discrete time')
-            results.append(vals[ni] * z**ni)
+            results.append(vals[ni] * z**self.n[ni])
 
-        return self.change(results, domain='discrete time')
+        return self.change(results, domain='discrete time', ni=self.n)
 
 
 def zseq(arg, ni=None, origin=None):
